@@ -2,6 +2,7 @@ import PhononModel.Lemmas.ThermalLimits
 import PhononModel.Lemmas.Basic
 import PhononModel.Lemmas.IEEE
 import PhononModel.Lemmas.ThermalLoop
+import Mathlib.Algebra.Order.Floor.Semiring
 /-!
 # C10 — thermal properties: harmonic closed forms and thermodynamic identities
 
@@ -471,7 +472,7 @@ theorem band_selection_restricts (bi : Fin ns → Fin nb) (hbi : Function.Inject
 
 /-- **projection** — for eigenvectors normalised per mode (`Σ_j |e_{jν}|² = 1`) the projected components
 add up to the unprojected quantity. -/
-theorem projection_sums_to_total (e2 : Fin nq → Fin nb → Fin nb → ℝ) (hnorm : ∀ q ν, ∑ j, e2 q j ν = 1)
+theorem projection_sums_to_total {nr : Nat} (e2 : Fin nq → Fin nr → Fin nb → ℝ) (hnorm : ∀ q ν, ∑ j, e2 q j ν = 1)
     (g : ℝ → ℝ) : ∑ j, projSum w fr e2 cut g j = meshSum w fr cut g := by
   rw [meshSum_eq]
   unfold projSum msum
@@ -523,6 +524,41 @@ theorem mode_counts (hk : 0 < k) (hT : 0 < T) (hcut : 0 ≤ cut) (hw : ∀ q, 0 
     linarith
 
 end prep
+
+/-! ## 4c. the temperature grid -/
+
+/-- real instantiation of the grid environment: `ceil` is `Nat.ceil`, `(double) i` is the cast -/
+noncomputable def gridR : GridEnv ℝ := { ceil := fun x => ⌈x⌉₊, ofNat := fun n => (n : ℝ) }
+
+/-- **temperature_grid_inclusive** — `set_temperature_range(t_min, t_max, t_step)` with `t_min ≥ 0`, `t_step > 0` and
+`t_max = t_min + n·t_step` yields exactly the `n + 1` temperatures `t_min, t_min + t_step, …, t_max` (the end point is
+included: the stop value is `t_max + t_step/2`); the defaults give `10, 20, …, 1000`. -/
+theorem temperature_grid_inclusive (tmin step : ℝ) (n : ℕ) (h0 : 0 ≤ tmin) (hs : 0 < step) :
+    tempRange gridR (some tmin) (some (tmin + n * step)) (some step)
+      = (List.range (n + 1)).map (fun (i : ℕ) => tmin + (i : ℝ) * step) ∧
+    tempRange gridR none none none = (List.range 100).map (fun (i : ℕ) => (10 : ℝ) + (i : ℝ) * 10) := by
+  constructor
+  · have ht1 : (if tmin < tmin + n * step then tmin + n * step else tmin) = tmin + n * step := by
+      split_ifs with h
+      · rfl
+      · have : (n : ℝ) * step ≤ 0 := by linarith
+        have hn : (n : ℝ) * step = 0 := le_antisymm this (by positivity)
+        linarith
+    simp only [tempRange, arange, gridR, not_lt.2 h0, if_false, hs, if_true, ht1]
+    have hlen : ⌈(tmin + n * step + step / 2 - tmin) / step⌉₊ = n + 1 := by
+      have : (tmin + n * step + step / 2 - tmin) / step = (n : ℝ) + 1 / 2 := by field_simp; ring
+      rw [this, Nat.ceil_eq_iff (by omega)]
+      constructor <;> push_cast <;> linarith
+    rw [hlen]
+    refine List.map_congr_left fun i _ => ?_
+    ring
+  · simp only [tempRange, arange, gridR]
+    have hlen : ⌈((1000 : ℝ) + 10 / 2 - 10) / 10⌉₊ = 100 := by
+      rw [Nat.ceil_eq_iff (by norm_num)]
+      constructor <;> norm_num
+    rw [hlen]
+    refine List.map_congr_left fun i _ => ?_
+    ring
 
 /-! ## 4b. the compiled loop nest is the model's guarded weighted sum -/
 
@@ -691,6 +727,7 @@ end PhononModel.C10
 #print axioms PhononModel.C10.band_selection_restricts
 #print axioms PhononModel.C10.projection_sums_to_total
 #print axioms PhononModel.C10.mode_counts
+#print axioms PhononModel.C10.temperature_grid_inclusive
 #print axioms PhononModel.C10.loop_eq_model
 #print axioms PhononModel.C10.mesh_S_cv_C_eq_Py
 #print axioms PhononModel.C10.mesh_F_C_eq_Py
